@@ -71,3 +71,24 @@ Theorem C01_hypotheses_satisfiable :
      = [(4637, 1); (6096, 3)].
 Proof. exact (conj str_A_canonical normal_transmission). Qed.
 Print Assumptions C01_hypotheses_satisfiable.
+
+(** KNOWN FINDING F9 — "text byte-identical to the transmitted header" is false of the faithful
+    model when what follows the header in the bursts votes to allowed characters ending in '-'
+    within 8 - len(callsign) positions: the greedy 3..8 character callsign swallows them.
+    Witnesses (the first observed on real audio at 20 dB SNR, the second with an older burst in the
+    history); both replayed on the implementation by the check. *)
+Theorem C01_F9_refuted :
+  match combine [f9_H ++ [205; 156]; f9_H ++ [42; 165]; f9_H ++ [192; 235]] with
+  | Some (Ok (SOM h)) => h_text h = f9_H ++ [72; 45]
+  | _ => False
+  end.
+Proof. exact F9_junk_extends_callsign. Qed.
+Print Assumptions C01_F9_refuted.
+
+Theorem C01_F9_old_burst_refuted :
+  match combine [f9_old; f9_W ++ [255; 255; 255]; f9_W ++ [0; 0; 0]] with
+  | Some (Ok (SOM h)) => h_text h = f9_W ++ [53; 54; 45] /\ h_voting h = 40
+  | _ => False
+  end.
+Proof. exact F9_old_burst_extends_callsign. Qed.
+Print Assumptions C01_F9_old_burst_refuted.
